@@ -27,3 +27,28 @@ def validate(chk, module, cfg, trace_path, what, timeout=600, env=None, deque=Fa
                     break
     return {"accepted": False, "line": line, "text": text, "res": res, "undecided": False,
             "violated": res.violated}
+
+
+def write_cfg(path, spec="TSpec", constants=None, invariants=(), view=None, postcondition="Accepted", constraint=None):
+    lines = ["SPECIFICATION " + spec]
+    if constants:
+        lines.append("CONSTANTS")
+        for k, v in constants.items():
+            lines.append("  %s = %s" % (k, v) if not str(v).startswith("<-") else "  %s %s" % (k, v))
+    for i in invariants:
+        lines.append("INVARIANT " + i)
+    if view:
+        lines.append("VIEW " + view)
+    if constraint:
+        lines.append("CONSTRAINT " + constraint)
+    if postcondition:
+        lines.append("POSTCONDITION " + postcondition)
+    lines.append("CHECK_DEADLOCK FALSE")
+    os.makedirs(os.path.dirname(path), exist_ok=True)
+    with open(path, "w") as f:
+        f.write("\n".join(lines) + "\n")
+    return path
+
+
+def on_set(items):
+    return "{" + ", ".join('"%s"' % i for i in sorted(items)) + "}"
